@@ -249,7 +249,8 @@ class DataGen(object):
         lit = ("str", long1)
         pick = r.random()
         if pick < 0.3:
-            tg = ("var", r.choice(["C1$", "C2$"]))
+            # (DC$ and IM$ are also arrays of this workload: a scalar and an array of one name are two variables)
+            tg = ("var", r.choice(["C1$", "C2$", "DC$", "IM$"]))
         elif pick < 0.65:
             tg = ("arr", r.choice(["IM$", "IN$"]), [n(r.choice([0, 3, 10]))])        # never DIMensioned
         else:
@@ -294,6 +295,11 @@ class DataGen(object):
         r = self.r
         self.add(P(self.tag(), ";", ("var", "U1"), ";", ("var", "U$"), ";", ("fn", "LEN", [("var", "U2$")]), ";",
                    ("fn", "ABS", [("var", "U3")]), ";", ("arr", "UA", [n(3)])))
+        if r.random() < 0.5:
+            # never-assigned scalars that share their name with an array (implicit UA, UB$; DIMensioned UD)
+            if not any(d[0] == "UD" for d in self.dims_line):
+                self.dims_line.append(("UD", [3], ["3"]))
+            self.add(P(self.tag(), ";", ("var", "UA"), ";", ("var", "UB$"), ";", ("arr", "UB$", [n(1)]), ";", ("var", "UD"), ";", ("arr", "UD", [n(2)])))
 
     def program(self, nblocks):
         r = self.r
